@@ -23,14 +23,23 @@ node.removeSubscription returned (which waited for in-flight broadcasts) drop th
 channel was subscribed again; regression test for the repository: spec/ChanWriter/fix-c13-regression_test.go.txt.
 With the patch `./check C13` exits 0 (264/264) and `go test -run 'Batch|ChannelWriter|PerChannel|Medium|Unsubscribe|Subscribe' .` passes.
 
-OPEN on unmodified HEAD (after fix b5fb93b8), evidence coverage.head_orphan_probe + witness orphan_witness.cfg, NOT a verdict
-(no natural gate between the two statements of perChannelWriter.Add, so no client-level schedule can be forced):
- w := getWriter(ch) by a broadcast that passed the subscribed check; unsubscribe site 1: delWriter(ch,false) closes and
- deletes w; the broadcast's w.Add(item) buffers into the closed, unreachable writer and arms its timer; removeSubscription
- (waits for the broadcast); unsubscribe site 2: delWriter looks in the map, finds nothing; unsubscribe reply; MaxDelay later
- the orphan's timer flushes the push.  On the real perChannelWriter (two halves of Add through the shim) the push is
- delivered after both delWriter calls.  Repair direction: a `closed` flag set by channelWriter.close, Add refusing a closed
- writer and perChannelWriter.Add fetching the writer again.
+FIXED in /repo by 50aef2b9 (was: OPEN after b5fb93b8): perChannelWriter.Add = getWriter + w.Add; a broadcast that fetched the
+ writer just before unsubscribe's first delWriter added to the closed, deleted writer, which neither delWriter reaches; its
+ timer flushed after the unsubscribe.  Now channelWriter.close sets `closed`, Add refuses a closed writer and
+ perChannelWriter.Add looks the writer up again (dropping the item once the perChannelWriter itself is closed).  The model
+ follows (ClosedRefuses = TRUE; Retry action; orphan_witness.cfg / race.cfg are the unrepaired variant); checked on the real
+ code by cwClosedWriterCheck (two halves of Add through the shim) and the Add-versus-delWriter stress loop, signature
+ `cw:add-into-closed-writer:orphan-flush`; `git revert 50aef2b9` turns ./check C13 red with that signature.
+
+OPEN on HEAD (evidence coverage.resub_inflight_probe, reproduced on a real client with natural gates; model
+resub_inflight_witness.cfg: GetWriter; Del; WAdd(refused); Retry; WAdd; Resub; TimerFire violates GenBracket; NOT a verdict
+until the lead decides fix / known finding; suggested signature `resub:inflight-broadcast-into-new-subscription`):
+ subscribe (generation 1); a broadcast passes the subscribed check (parked in LogHandler "-out->"); server-side Unsubscribe
+ deletes c.channels[ch] + delWriter and is parked at Broker.PublishLeave (before removeSubscription); the broadcast is
+ released: its Add re-creates the channel writer and buffers the push; the client subscribes again (reply 2; hub.addSub could
+ proceed because the broadcast is over); the Unsubscribe is released: its second delWriter is skipped because the channel is
+ subscribed again; MaxDelay later the generation-1 push is flushed after the second subscribe reply.  (Both fixes keep the
+ "unless subscribed again" clause; without a resubscribe the split-Add model is clean: gen_split_noresub.cfg.)
 
 Observations outside the properties' quantifiers (evidence only, no verdict):
  * coverage.batching_off_probe (model cfgswitch_direct_witness.cfg): GetChannelBatchConfig switching a channel from batching to
@@ -99,7 +108,7 @@ def c13(c):
     quick = c.tier == 'quick'
     c._specdir('ChanWriter')
     # the four TLC runs are independent: run them side by side (4 + 4 + 1 + 1 workers)
-    with ThreadPoolExecutor(max_workers=9) as ex:
+    with ThreadPoolExecutor(max_workers=10) as ex:
         # 1. design: exhaustive TLC, single producer (all cfgs x adds x timer fires x removals / closes)
         f1 = ex.submit(c.tlc_exhaustive, 'ChanWriter', 'ChanWriter', 'quick.cfg' if quick else 'thorough.cfg', workers=4, timeout=3000)
         #    two producers, Add = GetWriter + WAdd, every property except NoOrphanFlush (which is the known window)
@@ -118,7 +127,9 @@ def c13(c):
         def _witnesses(lst):
             return {cfg: c.tlc('ChanWriter', mod, cfg, workers=1, timeout=600, expect_violation=True) for mod, cfg in lst}
         f8 = ex.submit(_witnesses, (('ChanWriter', 'getw_witness.cfg'), ('ChanWriterSub', 'kinds_witness.cfg'), ('ChanWriterSub', 'orphan_witness.cfg')))
-        f9 = ex.submit(_witnesses, (('ChanWriterSub', 'cfgswitch_latest_witness.cfg'), ('ChanWriterSub', 'cfgswitch_direct_witness.cfg')))
+        f9 = ex.submit(_witnesses, (('ChanWriterSub', 'cfgswitch_latest_witness.cfg'), ('ChanWriterSub', 'cfgswitch_direct_witness.cfg'), ('ChanWriterSub', 'resub_inflight_witness.cfg')))
+        #    the broadcast's Add in two steps under the two-site unsubscribe (closed writer refuses, Add looks up again), no resubscribe
+        f10 = ex.submit(c.tlc_exhaustive, 'ChanWriter', 'ChanWriterSub', 'gen_split_noresub.cfg', workers=2, timeout=3000)
         r = f1.result()
         c.log('TLC exhaustive (atomic Add): %d distinct / %d generated, depth %d' % (r['distinct'], r['states'], r['depth']))
         r = f2.result()
@@ -130,6 +141,8 @@ def c13(c):
         gw = f6.result()
         r = f7.result()
         c.log('TLC exhaustive (getWriter split into lookup / create+store, 2 producers): %d distinct / %d generated, depth %d' % (r['distinct'], r['states'], r['depth']))
+        r = f10.result()
+        c.log('TLC exhaustive (split Add under the two-site unsubscribe, closed writer refuses): %d distinct / %d generated, depth %d' % (r['distinct'], r['states'], r['depth']))
         wits = dict(f8.result())
         wits.update(f9.result())
     c.cov['witnesses'] = {}
@@ -224,7 +237,7 @@ def c13(c):
     c.cov['traces_validated_against_impl'] += st['completed']
     c.cov['distinct_nontrivial'] += st['nontrivial']
     c.cov['stress_counters'] = st['counters']
-    for k in ('head_orphan_probe', 'batching_off_probe'):
+    for k in ('closed_writer_check', 'resub_inflight_probe', 'batching_off_probe'):
         c.cov[k] = (rr.get('extra') or {}).get(k)
     c.cov['race_unit_witness'] = (rr.get('extra') or {}).get('unit_witness')
     c.cov['cfg_change_probe'] = (rr.get('extra') or {}).get('cfg_change_probe')
